@@ -57,6 +57,32 @@ theorem PckCertificateExtensions_never_panics (c : PckExt.Cert) : PckExt.pckCert
 /-- rtmr.GetRtmrsFromTdQuote: every message -/
 theorem GetRtmrsFromTdQuote_never_panics (q : Option QuoteV4) : Ccel.getRtmrs true q ≠ .panic := C18.getRtmrs_never_panics q
 
+/-- the TCB-level lookup behind verify.SupportedTcbLevelsFromCollateral (and behind verification): every TEE TCB SVN — of any
+    length, also none at all — against every list of levels of any shape; the comparison of one level first -/
+theorem tdxSvnGe_never_panics (tee : Bytes) (lvl : List Nat) : tdxSvnGe tee lvl ≠ .panic := by
+  unfold tdxSvnGe
+  split
+  · simp
+  · split <;> simp
+
+theorem getMatchingTcbLevel_never_panics (comps : Bytes) (pcesvn : Nat) (tee : Bytes) (ls : List TcbLevelF) :
+    getMatchingTcbLevel comps pcesvn tee ls ≠ .panic := by
+  induction ls with
+  | nil => simp [getMatchingTcbLevel]
+  | cons l rest ih =>
+    unfold getMatchingTcbLevel
+    have hl : levelMatches comps pcesvn tee l ≠ .panic := by
+      unfold levelMatches
+      split
+      · simp
+      · split
+        · simp
+        · exact tdxSvnGe_never_panics tee l.tdx
+    cases hm : levelMatches comps pcesvn tee l with
+    | panic => exact absurd hm hl
+    | err e => simp
+    | ok b => cases b <;> simp [ih]
+
 /-- every outcome is a result or an error -/
 theorem result_or_error {α : Type} (x : Outcome α) (h : x ≠ .panic) : (∃ a, x = .ok a) ∨ ∃ e, x = .err e := by
   cases x with
@@ -64,7 +90,12 @@ theorem result_or_error {α : Type} (x : Outcome α) (h : x ≠ .panic) : (∃ a
   | err e => exact Or.inr ⟨e, rfl⟩
   | panic => exact absurd rfl h
 
-/-! ### the pinned tree: F1 (parser), F2 (nil header), F7 (short minimum TEE TCB SVN), F12 (nil TD body) -/
+/-! ### the pinned tree: F1 (parser), F2 (nil header), F7 (short minimum TEE TCB SVN), F12 (nil TD body), F16 (short TEE TCB SVN) -/
+
+/-- F16: a TEE TCB SVN of no bytes (a message without TD quote body) against a level that lists no TDX component -/
+theorem unfixed_witness_short_tee_tcb_svn : tdxSvnGeUnfixed [] [] = .panic ∧ tdxSvnGeUnfixed [7] [3] = .panic ∧
+    tdxSvnGe [] [] = .ok false ∧ tdxSvnGe [7] [3] = .ok false := by decide
+
 
 /-- F2: the log statements dereference `quote.Header` before the structural check -/
 theorem unfixed_witness_nil_header (C : Crypto) (w : World) (o : Opts) :
